@@ -451,6 +451,8 @@ func (x *fx) evalQuantWith(e *Expr, env *specEnv, off string) string {
 		bv = &Val{T: tInt, S: x.isub(name, off), AbsIdx: name, AbsOff: off}
 	}
 	inner := env.withBound(e.Name, bv)
+	x.boundNames = append(x.boundNames, name)
+	defer func() { x.boundNames = x.boundNames[:len(x.boundNames)-1] }()
 	var body string
 	if len(e.Args) == 3 {
 		lo := x.toIdx(x.typed(x.eval(e.Args[0], env), tInt))
